@@ -68,6 +68,7 @@ class InternalError(Exception):
 
 
 _STATE = {}
+_TRAIL = []   # per process: [space index, lo, next index] of every chunk run
 
 
 def _h64(text):
@@ -85,7 +86,9 @@ def _worker(job):
     }
     reset = getattr(module, 'reset_worker', None)
     decoy = getattr(module, 'decoy', None)
+    _TRAIL.append([space_index, lo, lo])
     for i in range(lo, hi):
+        _TRAIL[-1][2] = i + 1
         case = space.decode(i)
         if decoy and (i == lo or i % space.decoy_every == 0):
             try:
@@ -117,7 +120,8 @@ def _worker(job):
             for sig, msg in res.viol:
                 if sig not in agg['viol'] or i < agg['viol'][sig][0]:
                     if len(agg['viol']) < 50 or sig in agg['viol']:
-                        agg['viol'][sig] = (i, case, msg)
+                        agg['viol'][sig] = (i, case, msg,
+                                            [list(t) for t in _TRAIL])
         if i in sample_idx:
             agg['samples'].append(
                 {'space': space.name, 'index': i, 'case': case,
@@ -142,10 +146,12 @@ def merge_part(agg, part, si):
     agg['counters'].update(part['counters'])
     agg['outcomes'] |= part['outcomes']
     agg['samples'] += part['samples']
-    for sig, (i, case, msg) in part['viol'].items():
+    for sig, item in part['viol'].items():
+        (i, case, msg) = item[:3]
+        trail = item[3] if len(item) > 3 else None
         key = (si, i)
         if sig not in agg['viol'] or key < agg['viol'][sig][0]:
-            agg['viol'][sig] = (key, case, msg)
+            agg['viol'][sig] = (key, case, msg, trail)
 
 
 def enumerate_spaces(pool, spaces, seed, jobs, t0, deadline_s, agg,
@@ -238,12 +244,12 @@ def run_check(module, tier, seed, jobs, deadline_s):
     new_violations = 0
     known_hit = collections.OrderedDict()
     for sig in sorted(agg['viol'], key=lambda s: agg['viol'][s][0]):
-        (_key, case, msg) = agg['viol'][sig]
+        (_key, case, msg, trail) = agg['viol'][sig]
         # replay in FRESH processes (so that nothing left behind by other
         # cases can make or mask it): first the case alone, then preceded by
         # one / two decoy runs.  The verdict must repeat identically under
         # the same protocol, else it is an internal error, not a violation.
-        prelude = confirm_in_fresh_process(module, case, sig)
+        prelude = confirm_in_fresh_process(module, case, sig, trail, tier)
         matched = None
         for finding in open_findings:
             if re.search(finding['match'], sig):
@@ -257,7 +263,9 @@ def run_check(module, tier, seed, jobs, deadline_s):
         os.makedirs(rdir, exist_ok=True)
         blob = json.dumps({'property': module.ID, 'signature': sig,
                            'message': msg, 'case': case,
-                           'prelude_decoys': prelude}, indent=1,
+                           'prelude_decoys': prelude, 'tier': tier,
+                           'trail': trail if prelude == 'trail' else None},
+                          indent=1,
                           sort_keys=True, default=str)
         name = hashlib.sha1(blob.encode()).hexdigest()[:16] + '.json'
         rpath = os.path.join(rdir, name)
@@ -311,24 +319,29 @@ def run_check(module, tier, seed, jobs, deadline_s):
     return (1 if new_violations else 0, evidence, lines)
 
 
-def confirm_in_fresh_process(module, case, sig):
-    """Number of decoy runs after which the violation reproduces (twice) in
-    a fresh interpreter; raises InternalError if it never does"""
+def confirm_in_fresh_process(module, case, sig, trail=None, tier='quick'):
+    """How the violation reproduces (twice, identically) in a fresh
+    interpreter: 0 / 1 / 2 = the case alone / after one / two decoy runs;
+    'trail' = after re-running, in order, everything the worker that found
+    it had executed before (for defects that depend on what the process did
+    earlier).  Raises InternalError if no protocol reproduces it."""
     import subprocess
     import tempfile
     seen = []
     with tempfile.NamedTemporaryFile('w', suffix='.json', delete=False) as f:
-        json.dump({'case': case}, f, default=str)
+        json.dump({'case': case, 'trail': trail, 'tier': tier}, f,
+                  default=str)
         path = f.name
+    protocols = [0, 1, 2] + (['trail'] if trail else [])
     try:
-        for prelude in (0, 1, 2):
+        for prelude in protocols:
             verdicts = []
             for _ in range(2):
                 proc = subprocess.run(
                     [sys.executable, '-B', '-m', 'mc.run', module.ID,
                      '--replay', path, '--prelude', str(prelude), '--json'],
                     stdout=subprocess.PIPE, stderr=subprocess.PIPE,
-                    text=True, cwd=HERE, timeout=3600)
+                    text=True, cwd=HERE, timeout=7200)
                 line = [l for l in proc.stdout.split('\n')
                         if l.startswith('REPLAY-RESULT ')]
                 if not line:
@@ -348,8 +361,27 @@ def confirm_in_fresh_process(module, case, sig):
         os.unlink(path)
     raise InternalError(
         'violation %s on %s was observed during exploration but does not '
-        'reproduce in a fresh process (prelude, verdicts): %r'
+        'reproduce in a fresh process (protocol, verdicts): %r'
         % (sig, json.dumps(case, default=str)[:1000], seen))
+
+
+def replay_trail(module, trail, tier):
+    """Re-run, in this process, every case of a recorded trail (with the
+    decoys a worker would have run); returns the Result of the last case"""
+    spaces = module.spaces(tier)
+    decoy = getattr(module, 'decoy', None)
+    res = None
+    for (si, lo, nxt) in trail:
+        space = spaces[si]
+        for i in range(lo, nxt):
+            case = space.decode(i)
+            if decoy and (i == lo or i % space.decoy_every == 0):
+                try:
+                    decoy()
+                except Exception:  # pylint: disable=broad-except
+                    pass
+            res = module.run_case(case)
+    return res
 
 
 def write_evidence(evidence):
